@@ -294,8 +294,10 @@ fn c02_o1u_from_dht_message_any_seq() {
 }
 
 //@ ob: C02.O1s
-//@ tier: thorough
-//@ cap: 1500
+//@ tier: quick
+//@ cap: 800
+//@ rss: 0.5
+//@ time: 10
 //@ also: C03
 //@ desc: structure of mutable::encode_signable(seq, v, salt) for every i64 seq and every byte value: with a salt the buffer is <formatted piece 1> salt-bytes <formatted piece 2> value-bytes, without a salt <formatted piece 1> value-bytes -- the salt and the value are embedded verbatim (bytes that are not valid UTF-8 included; nothing is re-encoded, truncated or dropped), in that order, and nothing else is added.  The text of the formatted pieces ("4:salt<len>:", "3:seqi<seq>e1:v<len>:") is pinned for fixed inputs by the repo's own tests signable_with_salt / signable_without_salt and is outside this obligation
 //@ bounds: seq full symbolic i64; 1 symbolic value byte; salt absent or 1 symbolic byte; unwind 8
